@@ -868,6 +868,75 @@ func Harness_C15_stack_mixed() {
 	VerifCover("done")
 }
 
+// Harness_C15_stack_partial: a compaction by the C implementation of a range above the bottom table (automatic compaction of small tables on top of a large one) leaves a directory the Go implementation opens and reads alike.
+// bounds: Go adds a table of 30 refs, then two small transactions are added (each by Go or by C, without compaction), then C runs auto_compact or adds a third small transaction with automatic compaction; then both merged views are compared and checked against the transactions; BlockSize 256, sha1
+// assumes: sequential, as above
+// covers: done
+func Harness_C15_stack_partial() {
+	cfg := stackCfg(0)
+	hs := 20
+	dir := VerifTempDir()
+	payload := VerifU8()
+	VerifAs(1)
+	st, err := NewStack(dir, cfg)
+	VerifAssert(err == nil, "go-open")
+	if err != nil {
+		return
+	}
+	st.disableAutoCompact = true
+	VerifAssert(st.Add(func(w *Writer) error {
+		ui := st.NextUpdateIndex()
+		w.SetLimits(ui, ui)
+		for i := 0; i < 30; i++ {
+			name := "big" + string([]byte{'a' + byte(i/26), 'a' + byte(i%26)})
+			if err := w.AddRef(&RefRecord{RefName: name, UpdateIndex: ui, Value: hashWith(hs, byte(i), 8)}); err != nil {
+				return err
+			}
+		}
+		return nil
+	}) == nil, "go-add-big")
+	st.Close()
+	VerifAs(0)
+	adds := 0
+	for step := 0; step < 2; step++ {
+		if VerifChoose(2) == 0 {
+			VerifAs(1)
+			st, err := NewStack(dir, cfg)
+			VerifAssert(err == nil, "go-open")
+			if err != nil {
+				return
+			}
+			st.disableAutoCompact = true
+			VerifAssert(addTxnVal(st, byte(adds), payload, true) == nil, "go-add")
+			st.Close()
+			VerifAs(0)
+		} else {
+			VerifAssert(c15COp(dir, cfg, 0, c15Txn(byte(adds), payload, false, hs)) == 0, "c-add")
+		}
+		adds++
+	}
+	if VerifChoose(2) == 0 {
+		VerifAssert(c15COp(dir, cfg, 3, nil) == 0, "c-autocompact")
+	} else {
+		VerifAssert(c15COp(dir, cfg, 1, c15Txn(byte(adds), payload, false, hs)) == 0, "c-add")
+		adds++
+	}
+	fin := c15StackViews(dir, cfg, "")
+	if fin == nil {
+		return
+	}
+	VerifQuiet(func() {
+		got := snapshot(fin, "final")
+		VerifAssert(len(got.refs) == 30+adds+1, "ref-count")
+		for i := 0; i < adds; i++ {
+			v, ok := got.refs["p"+string([]byte{'0' + byte(i)})]
+			VerifAssert(ok && v == byte(i), "transaction-lost")
+		}
+		VerifAssert(got.refs["s"] == byte(adds-1), "shared-ref")
+	})
+	VerifCover("done")
+}
+
 // c15SmallTable writes the refs with the Go writer (dir 0) or the C writer (dir 1); ok=false: refused.
 func c15SmallTable(dir int, cfg Config, min, max uint64, refs []*RefRecord) ([]byte, bool) {
 	if dir == 0 {
